@@ -14,7 +14,12 @@ spec = props.U[sys.argv[1]]
 r = engine.verify_unit(spec, props.REG, fuel=2)
 print("error", r.error, len(captured))
 m = [o for o in captured if sys.argv[2] in o.name]
-o = m[int(sys.argv[3]) if len(sys.argv) > 3 else 0]
+if len(sys.argv) > 3 and sys.argv[3] == "fail":  # the first match that the quick strategies do not prove
+    for o in m:
+        if all(solve.discharge(o, props.REG.specfuns, fuel=2, strategy=st)["status"] != "proved" for st in solve.STRATEGIES[:2]):
+            break
+else:
+    o = m[int(sys.argv[3]) if len(sys.argv) > 3 else 0]
 print(o.name, o.meta.get("path"))
 print("GOAL:", o.goal)
 for h in o.hyps:
